@@ -169,7 +169,7 @@ func c15Exec(t *testing.T, p *Plan) (r *c15Result) {
 		}
 		r.answers = dw.answers
 		sn := NewSimNet()
-		sn.Latency = time.Millisecond
+		sn.Latency = 50 * time.Millisecond // every exchange takes simulated time (a client that follows redirects for ever makes 20 000 requests in the 1000 simulated seconds it is given, not a million)
 		sn.Hosts["distributor.example"] = http.HandlerFunc(func(rw http.ResponseWriter, rq *http.Request) {
 			if strings.HasPrefix(rq.URL.Path, "/redirected") && p.Cfg.Notes["redirect_target"] == "200" {
 				// a distributor (or something in front of it) whose redirect target is a friendly landing page
@@ -511,7 +511,7 @@ func init() {
 			p.Cfg.Notes = map[string]string{"answers": strings.Join(ans, ","), "net": strings.Join(net, ","),
 				"redirect_target": Pick(r, "404", "200"),
 				"client_timeout":  Pick(r, "5s", "5s", "none"),
-				"witname":         Pick(r, "wit0", "wit0", "witness.example/w1", "w%41", "wit?x#y", "ŵit-ness", "a:b@c", "wit&co=1")}
+				"witname":         Pick(r, "wit0", "wit0", "witness.example/w1", "w%41", "wit?x#y", "ŵit-ness", "a:b@c", "wit&co=1", "logkey0", "logkey0")} // (the last: the witness key is NAMED like the first log's key - names are labels, keys are told apart by their hashes)
 			if p.Cfg.Notes["client_timeout"] == "none" {
 				p.Cfg.Notes["net"] = strings.ReplaceAll(p.Cfg.Notes["net"], "stall", "drop") // a stalled peer and no timeout never ends, by definition
 			}
